@@ -1114,7 +1114,7 @@ class DAGExecution(BaseDAGExecution[P, RVDAG]):
 
         # 2. Execute the scheduler
         self.xn_dict, self.results, self.profiles = self.dag.run_subgraph(
-            self.graph, self.results, *args
+            deepcopy(self.graph), self.results, *args
         )
 
         return self._post_call()
@@ -1149,7 +1149,7 @@ class AsyncDAGExecution(BaseDAGExecution[P, RVDAG]):
 
         # 2. Execute the scheduler
         self.xn_dict, self.results, self.profiles = await self.dag.run_subgraph(
-            self.graph, self.results, *args
+            deepcopy(self.graph), self.results, *args
         )
 
         return self._post_call()
